@@ -133,10 +133,14 @@ type Sched struct {
 	Budget        int
 	gen           int
 
-	emu          sync.Mutex
-	effects      int
-	CrashAt      int // effect position before which the process crashes (-1: never)
-	CrashMid     bool
+	emu       sync.Mutex
+	effects   int
+	CrashAt   int  // effect position before which the process crashes (-1: never)
+	CrashMid  bool // with CrashAt: cut INSIDE that store call instead of before it ...
+	CrashMidK int  // ... namely before its CrashMidK-th Atomix write (>= 2)
+	// EffectWrites (with RecordEffects) holds, per effect point, how many Atomix writes the store call made
+	// (0 for calls that are not counted: only the configuration store has methods of several writes)
+	EffectWrites []int
 	crashPending bool
 	Crashes      int
 	// CrashHook, when set, is consulted at every effect point in drawn mode.
@@ -197,6 +201,7 @@ func (s *Sched) enter(g *Gate, op string, effect bool) error {
 			s.effects++
 			if s.RecordEffects {
 				s.EffectOps = append(s.EffectOps, "nb:"+op)
+				s.EffectWrites = append(s.EffectWrites, 0)
 			}
 			s.emu.Unlock()
 		}
@@ -225,18 +230,31 @@ func (s *Sched) enter(g *Gate, op string, effect bool) error {
 		s.effects++
 		if s.RecordEffects {
 			s.EffectOps = append(s.EffectOps, op)
+			s.EffectWrites = append(s.EffectWrites, 0)
 		}
 		s.emu.Unlock()
 	}
 	return nil
 }
 
+// noteSubWrites records how many Atomix writes the store call of the effect point just passed has made.
+func (s *Sched) noteSubWrites(n int) {
+	s.emu.Lock()
+	if s.RecordEffects && len(s.EffectWrites) > 0 {
+		s.EffectWrites[len(s.EffectWrites)-1] = n
+	}
+	s.emu.Unlock()
+}
+
 // midCallCrash reports whether the two-phase call that has just passed its
 // effect point must be cut between its two sub-writes.
-func (s *Sched) midCallCrash(g *Gate, op string) bool {
+func (s *Sched) midCallCrash(g *Gate, op string) int {
 	s.emu.Lock()
 	defer s.emu.Unlock()
-	return s.CrashAt >= 0 && s.CrashMid && s.CrashAt == s.effects-1
+	if s.CrashAt >= 0 && s.CrashMid && s.CrashAt == s.effects-1 {
+		return max(2, s.CrashMidK)
+	}
+	return 0
 }
 
 func (s *Sched) crashNow(g *Gate) {
